@@ -49,7 +49,7 @@ Definition meta_eqb (a b : meta) : bool := Bool.eqb (fst a) (fst b) && N.eqb (sn
 Record case := {
   k_mode : nat;                        (* 0 complete run, 1 crash (prefix), 2 injected OSError *)
   k_links : links; k_dir : path; k_pkg : path;
-  k_rcfg : rcfg; k_proj : proj; k_pages : list page;
+  k_rcfg : rcfg; k_proj : proj; k_cands : list cand;
   k_pre : list (path * node);          (* sandbox before the run (content ids by hash) *)
   k_pkgfs : list (path * node);        (* the package's asset directories *)
   k_pre_meta : list (path * meta);
@@ -66,7 +66,7 @@ Definition model_cfg (k : case) : cfg := normalise_cfg (k_links k) (k_dir k) (k_
 Definition model_fs0 (k : case) : fs := of_list (k_pre k ++ k_pkgfs k).
 Definition model_ops (k : case) : list op :=
   let c := model_cfg k in
-  ford_ops (is_file (model_fs0 k) (out c)) (k_pkg k) c (k_proj k) (k_pages k).
+  ford_ops (is_file (model_fs0 k) (out c)) (k_pkg k) c (k_proj k) (k_cands k).
 
 Definition cfg_agrees (k : case) : bool :=
   let c := model_cfg k in
@@ -132,12 +132,13 @@ Definition spec_violation (k : case) : bool :=
   else negb (targets_ok (i_roots k) (i_ops k))
        || negb (snap_agree_outside (i_roots k) (k_pre_meta k) (i_post_meta k)).
 
-Definition region (k : case) : nat :=
-  (if forallb copy_safe (k_pages k) then 0 else 1) + (if pages_loc_ok (k_pages k) then 0 else 2).
+(* no known region is left: both recorded defects are repaired and their witnesses are ordinary
+   regression inputs *)
+Definition region (k : case) : nat := 0.
 
 Definition rp (a : bool) (l : list str) : rpath := {| rp_abs := a; rp_comps := l |}.
-Definition pg (loc : list str) (stem : str) (cp : list rpath) (files : list str) : page :=
-  {| pg_loc := loc; pg_stem := stem; pg_copy := cp; pg_files := files |}.
+Definition cd (entries : list str) (idx : bool) (stem : str) (cp : list rpath) (files : list str) : cand :=
+  {| cd_entries := entries; cd_index := idx; cd_stem := stem; cd_copy := cp; cd_files := files |}.
 
 Definition judge (k : case) : nat := verdict (model_mismatch k) (spec_violation k) (region k).
 
